@@ -192,7 +192,7 @@ PATTERNS = {"nu": r"line_\d+\.csv", "ldr": r"\w*_ldr_\d+\.csv", "tofwerk": r"\w+
 class C04(Prop):
     id = "C04"
     anchored = ["src/pewlib/io/csv.py"]
-    cases = {"quick": 330, "thorough": 7000}
+    cases = {"quick": 1500, "thorough": 40000}
     rule = ("synthetic directories in the Nu / iCap LDR / TOFWERK / generic layouts (1..8 line files, numbers 9/10/11/100, "
             "unequal lengths, 1..4 elements, distractor / hidden / directory entries, shuffled listing, shuffled task "
             "completion, 5 time zones with stamps around DST transitions, explicit and auto-detected option) plus batches of "
